@@ -28,6 +28,13 @@ for f in sorted(os.listdir(os.path.join(HERE, 'props'))):
             except Exception:
                 traceback.print_exc()
                 rc = 1
+try:
+    from props import _pybasis
+    r = _pybasis.regenerate_pybasis(sp, model.LEAN_DIR)
+    print('regenerated pybasis', [(o.get('name'), o.get('ok')) for o in r])
+except Exception:
+    traceback.print_exc()
+    rc = 1
 leanproof.write_driver_all()
 leanproof.write_root()
 sys.exit(rc)
